@@ -217,7 +217,10 @@ func (f *MemFile) Read(b []byte) (n int, err error) {
 	}
 
 	nd.mu.RLock()
-	n = copy(b, nd.data[f.at:])
+	// An offset at or beyond the end of the file reads nothing (io.EOF).
+	if f.at < int64(len(nd.data)) {
+		n = copy(b, nd.data[f.at:])
+	}
 	nd.mu.RUnlock()
 
 	f.at += int64(n)
@@ -651,6 +654,16 @@ func (f *MemFile) Write(b []byte) (n int, err error) {
 	}
 
 	nd.mu.Lock()
+
+	// In append mode every write lands at the current end of the file.
+	if f.openMode&avfs.OpenAppend != 0 {
+		f.at = int64(len(nd.data))
+	}
+
+	// Writing beyond the end of the file leaves a zero-filled gap.
+	if gap := f.at - int64(len(nd.data)); gap > 0 {
+		nd.data = append(nd.data, make([]byte, gap)...)
+	}
 
 	n = copy(nd.data[f.at:], b)
 	if n < len(b) {
